@@ -1,0 +1,68 @@
+//go:build verif
+
+package router
+
+// Verification hooks for property C08 (cache lifetime policy, TTL ageing, expiry).
+// Add-only: exports the unexported cacheCtl through a thin wrapper. Nothing here re-implements
+// router logic: every method forwards to the real function.
+
+import (
+	"context"
+	"net/netip"
+	"time"
+
+	"github.com/IrineSistiana/mosproxy/internal/dnsmsg"
+	"github.com/IrineSistiana/mosproxy/internal/mlog"
+	"github.com/IrineSistiana/mosproxy/internal/pool"
+)
+
+// VerifC08Cache wraps a cacheCtl built by the real initCache (memory backend only).
+type VerifC08Cache struct {
+	c *cacheCtl
+}
+
+// VerifC08NewCache runs the real (*router).initCache on a router that has only what initCache reads
+// (logger, metrics registry). maxTTLSeconds is CacheConfig.MaximumTTL, memSize CacheConfig.MemSize.
+func VerifC08NewCache(maxTTLSeconds int, memSize int) (*VerifC08Cache, error) {
+	r := &router{logger: mlog.Nop(), metricsReg: newMetricsReg()}
+	c, err := r.initCache(&CacheConfig{MemSize: memSize, MaximumTTL: maxTTLSeconds})
+	if err != nil {
+		return nil, err
+	}
+	return &VerifC08Cache{c: c}, nil
+}
+
+// MaximumTtl is cacheCtl.maximumTtl as initCache computed it.
+func (v *VerifC08Cache) MaximumTtl() time.Duration { return v.c.maximumTtl }
+
+// Store is cacheCtl.Store.
+func (v *VerifC08Cache) Store(q *dnsmsg.Question, clientAddr netip.Addr, resp *dnsmsg.Msg) {
+	v.c.Store(q, clientAddr, resp)
+}
+
+// Get is cacheCtl.Get for a client without address (ip mark "").
+func (v *VerifC08Cache) Get(q *dnsmsg.Question) (*dnsmsg.Msg, time.Time, time.Time) {
+	rc := new(RequestContext)
+	return v.c.Get(context.Background(), q, rc)
+}
+
+// StoreAt puts resp (encoded by the real packCacheMsg under the real cacheKey) into the memory backend
+// with caller-chosen stored/expire instants, through the real MemoryCache.Store. Used to age an entry
+// without waiting.
+func (v *VerifC08Cache) StoreAt(q *dnsmsg.Question, storedTime, expireTime time.Time, resp *dnsmsg.Msg, setNX bool) error {
+	b, err := packCacheMsg(resp)
+	if err != nil {
+		return err
+	}
+	defer pool.ReleaseBuf(b)
+	k := cacheKey(q, "")
+	defer pool.ReleaseBuf(k)
+	v.c.memory.Store(k, storedTime, expireTime, b, setNX)
+	return nil
+}
+
+// Close is cacheCtl.Close.
+func (v *VerifC08Cache) Close() { v.c.Close() }
+
+// VerifC08DefaultMaxCacheTtl is the package constant defaultMaxCacheTtl.
+const VerifC08DefaultMaxCacheTtl = defaultMaxCacheTtl
